@@ -1313,6 +1313,53 @@ def run_result(case, T):
     T.fx(logged)
 
 
+# ------------------------------------------------------------------ cross-build pickles (Row / immutabledict / OrderedSet)
+def _x_objects(case):
+    from sqlalchemy.engine.result import SimpleResultMetaData
+    from sqlalchemy.engine.row import Row, RowMapping
+    from sqlalchemy.util import OrderedSet, immutabledict
+
+    tab = value_table()
+    vals = [tab[v % HASHABLE_N] for v in case["data"]]
+    keys = [f"k{i}" for i in range(len(vals))]
+    md = SimpleResultMetaData(keys)
+    procs = [PROCS[n] for n in case["procs"]][: len(vals)] if case.get("procs") else None
+    if procs is not None:
+        procs += [None] * (len(vals) - len(procs))
+    return {
+        "row": lambda: Row(md, procs, md._key_to_index, tuple(vals)),
+        "rowmapping": lambda: RowMapping(md, None, md._key_to_index, tuple(vals)),
+        "rows": lambda: [Row(md, None, md._key_to_index, tuple(vals)), Row(md, None, md._key_to_index, tuple(reversed(vals)))],
+        "imm": lambda: immutabledict(zip(keys, vals)),
+        "oset": lambda: OrderedSet(v for v in vals),
+    }[case["what"]]()
+
+
+def _x_describe(o):
+    from sqlalchemy.engine.row import BaseRow, RowMapping
+
+    c = Canon()
+    if isinstance(o, list):
+        return [_x_describe(x) for x in o]
+    if isinstance(o, RowMapping):
+        return [type(o).__name__, c(dict(o)), c(list(o.keys()))]
+    if isinstance(o, BaseRow):
+        return [type(o).__name__, c(o._to_tuple_instance()), c(list(o._fields)), c(dict(o._mapping)), c([getattr(o, k) for k in o._fields]), c(type(o._parent).__name__)]
+    return [type(o).__name__, c(o)]
+
+
+def run_xdump(case, T):
+    """pickle in THIS build; the hex goes to the other build's run_xload"""
+    T.at(0, "dump")
+    T.raw("hex", pickle.dumps(_x_objects(case), case["proto"]).hex())
+    T.raw("desc", _x_describe(_x_objects(case)))
+
+
+def run_xload(case, T):
+    T.at(0, "load")
+    o = T.do(lambda: _x_describe(pickle.loads(bytes.fromhex(case["hex"]))))
+
+
 FAMILIES = {
     "coll": run_coll,
     "iset": run_iset,
@@ -1322,6 +1369,8 @@ FAMILIES = {
     "eutil": run_eutil,
     "anon": run_anon,
     "result": run_result,
+    "xdump": run_xdump,
+    "xload": run_xload,
 }
 
 
